@@ -123,6 +123,8 @@ def pyEq (o : StrOracle) (ms : ModelStr) (g : ModelLookup) : Nat â†’ Ty â†’ Ty â
       eqList (sortedMembers o ms xs) (sortedMembers o ms ys)
     | .obj fa, .obj fb => eqFields fa fb
     | .ptr i, .ptr j =>
+      -- the same ModelMeta on both sides: dict comparison short-cuts on identical values (`v1 is v2`), no descent
+      if i == j then some true else
       match g i, g j with
       | some fa, some fb => eqFields fa fb
       | _, _ => some (i == j)
